@@ -115,7 +115,9 @@ def run(ctx):
 
 
 def replay(case):
-    """Replay = regenerate and compare the named definition again."""
+    """Replay = regenerate and compare the named definition again (or, for the second oracle, re-read the YAML)."""
+    if case.get('oracle') == 'independent-yaml-reading':
+        return replay_independent(case)
     scratch = os.path.join(env.VERIF, '.work', 'C18-replay-%d' % os.getpid())
     try:
         mods = resgen.generate_all(scratch)
@@ -267,6 +269,44 @@ def expected_values(yaml_path, aliases=None):
         else:
             out[name] = ('unknown', tag)
     return out
+
+
+def _independent_targets():
+    import importlib
+    import json as _json
+    for pkg in resgen.PACKAGES:
+        libs = os.path.join(env.LIBS, pkg)
+        with open(os.path.join(libs, 'resource-definitions.json'), encoding='utf-8') as f:
+            spec = _json.load(f)
+        for cfg in spec['configFiles']:
+            parts_ = list(cfg['input'])
+            parts_[-1] += '.yaml'
+            ypath = resgen._resolve_ci(os.path.join(env.REPO, 'Patterns'), parts_)
+            cls_name = [h for h in cfg['header'] if h.startswith('class ')][0][6:].rstrip(':').strip()
+            mod_name = '%s.%s.%s' % (pkg.replace('-', '_'), os.path.normpath(spec['outputPath']).split(os.sep)[-1], cfg['output'])
+            aliases = {}
+            for h in cfg['header']:
+                mm = _re_alias.match(h)
+                if mm:
+                    aliases[mm.group(2)] = mm.group(1)
+            yield pkg, '%s/%s' % (pkg, cfg['output']), ypath, aliases, mod_name, cls_name
+
+
+def replay_independent(case):
+    import importlib
+    for pkg, rel, ypath, aliases, mod_name, cls_name in _independent_targets():
+        if rel != case['module']:
+            continue
+        cls = getattr(importlib.import_module(mod_name), cls_name)
+        e = expected_values(ypath, aliases).get(case['name'])
+        if e is None or not hasattr(cls, case['name']):
+            return R([V('VALUE_MISSING', {'module': rel, 'name': case['name']}, sig=[rel, case['name'], 'value'])], nontrivial=True)
+        got = getattr(cls, case['name'])
+        if e[0] == 'value' and (got != e[1] or type(got) is not type(e[1])):
+            return R([V('VALUE_DIFFERS_FROM_YAML', {'module': rel, 'name': case['name'], 'yaml_says': repr(e[1])[:300], 'module_has': repr(got)[:300]},
+                        sig=[rel, case['name'], 'value'])], nontrivial=True)
+        return R([], nontrivial=True, obs={'kind': e[0]})
+    raise env.HarnessError('module %s not in resource definitions' % case['module'])
 
 
 def run_independent(ctx):
